@@ -224,6 +224,9 @@ func (it *Interp) yield(what string) {
 	if ts == nil || it.job.Preempt == 0 || ts.preempts >= it.job.Preempt {
 		return
 	}
+	if it.job.PreemptAt != "" && !strings.Contains(it.job.PreemptAt, what) {
+		return
+	}
 	cur := ts.cur
 	others := ts.runnable(cur)
 	if len(others) == 0 {
